@@ -5,7 +5,7 @@ MAXW = (1 << 64) - 1
 
 class Case:
     def __init__(self, cid, kind, vals=None, start=0, stop=0, script=None, hint="inexact", adapt="none",
-                 threads=None, owner="drop", sched=None, frozen=None, iters=1, mode="release", clonepanic=None, droppanic=None, tags=None):
+                 threads=None, owner="drop", sched=None, frozen=None, iters=1, mode="release", clonepanic=None, droppanic=None, zst=False, tags=None):
         self.id = cid
         self.kind = kind            # slice vecref arrref vec array range iter iterref
         self.vals = list(vals or [])
@@ -21,6 +21,7 @@ class Case:
         self.mode = mode
         self.clonepanic = clonepanic
         self.droppanic = droppanic      # the k-th recorded destruction of an element panics
+        self.zst = zst                  # zero-sized elements (slice / vec / array; payloads all 0)
         self.tags = set(tags or [])
 
     # ---- source facts -------------------------------------------------------------------------
@@ -84,6 +85,8 @@ class Case:
         if self.iters != 1:
             src += " iters=%d" % self.iters
         L.append(src)
+        if self.zst:
+            L.append("zst")
         if self.adapt != "none":
             L.append("adapt %s" % self.adapt)
         L.append("mode %s" % self.mode)
@@ -141,6 +144,8 @@ def parse_cases(text):
             cur.clonepanic = int(toks[1])
         elif toks[0] == "droppanic":
             cur.droppanic = int(toks[1])
+        elif toks[0] == "zst":
+            cur.zst = True
         elif toks[0] == "thread":
             head, _, prog = line.partition(":")
             t = int(head.split()[1])
